@@ -276,7 +276,10 @@ def header_comment_indices(tokens):
 
 
 def include_lines(tokens):
-    """Line numbers of `# include` / `# import` directives."""
+    """Line numbers of genuine `# include` directives - the only strings the property text excludes ("outside #include").
+    The string of an `#import "..."` line (IsPreprocessorStatement.check_import accepts it, no rule reads its contents:
+    CheckPreprocessorInclude returns for every directive other than `include`), and strings on #define / #warning /
+    #error / #pragma / #if lines are string contents in the sense of C17 and ARE edited."""
     out = set()
     first = {}
     for t in tokens:
@@ -286,7 +289,7 @@ def include_lines(tokens):
         if len(first[t[2]]) < 2:
             first[t[2]].append(t)
     for ln, ts in first.items():
-        if len(ts) == 2 and ts[0][0] == "HASH" and ts[1][0] == "IDENTIFIER" and ts[1][1].lower() in ("include", "import"):
+        if len(ts) == 2 and ts[0][0] == "HASH" and ts[1][0] == "IDENTIFIER" and ts[1][1] == "include":
             out.add(ln)
     return out
 
@@ -653,6 +656,19 @@ def make_commented(rnd, name, src, stats=None):
                 add.append("")
             out[k:k] = add
             stats["literal-define"] = stats.get("literal-define", 0) + 1
+        # strings on preprocessor lines other than #include: #import "x.h" next to the includes (or at the top), #warning / #pragma
+        if rnd.random() < 0.6 * max(density, 0.4):
+            inc = [k for k, l in enumerate(out) if k >= 12 and l.lstrip("#").lstrip(" ").startswith("include") and l.startswith("#")]
+            word = rnd.choice(["import", "import", "import", "warning", "pragma message"])
+            arg = '"%s.h"' % family.lname(rnd, 6) if word == "import" and rnd.random() < 0.8 else \
+                '"%s"' % _text(rnd, rnd.randint(3, 14)).replace("\t", " ").replace('"', "'")
+            if inc:
+                k = rnd.choice(inc)
+                ind = out[k][:len(out[k]) - len(out[k].lstrip("#").lstrip(" "))]
+                out.insert(k + 1, ind + word + " " + arg)
+            elif not is_h:
+                out[12:12] = ["#" + word + " " + arg] + ([] if out[12].startswith("#") else [""])
+            stats["directive-with-string"] = stats.get("directive-with-string", 0) + 1
         res = "\n".join(out) + "\n"
         if impl.analyse(res, name)["kind"] == "ok":
             return res
